@@ -79,6 +79,8 @@ def events_of_path(path, vmap=None):
         a = [tlaval.to_json(x) for x in args]
         if act == 'Express':
             evs.append({'a': act, 't': a[0], 'defer': bool(a[1])})
+        elif act == 'ExpressNow':
+            evs.append({'a': 'Express', 't': a[0], 'defer': False})
         elif act == 'ExpressDown':
             evs.append({'a': act, 't': a[0]})
         elif act == 'Await':
@@ -260,8 +262,11 @@ def random_schedule(rng, front, n_events, weights=None, junk=None, verdicts=None
                     dig = rng.choice([1, 2]) + 10 * ALLN.index(name)
                 # 400 ticks = 4000 ms: the lifetime is not given at all and the default applies
                 t = {'name': name, 'cbp': cbp, 'dig': dig, 'life': rng.choice([1, 1, 2, 3, 1, 2, 3, pitkit.DEFAULT_LIFE])}
+                df = rng.random() < defer_p
+                if front == 'legacy' and not df and rng.random() < 0.08:
+                    t['life'] = 0          # times out in the instant it is expressed (NdnPit!ExpressNow)
                 if a == 'Express':
-                    emit({'a': a, 't': t, 'defer': rng.random() < defer_p})
+                    emit({'a': a, 't': t, 'defer': df})
                     entries.append({'t': t, 'dl': now + t['life']})
                 else:
                     emit({'a': a, 't': t})
